@@ -41,7 +41,10 @@ Poly(a, exps, c)   == [t |-> "Poly", a |-> a, exps |-> exps, c |-> c]
 Rat(a, b)          == [t |-> "Rat", a |-> a, b |-> b]
 
 DataclassUser == {"C17Pair", "C17Tagged", "C17Unit", "C17NoHash", "C17Names",
-                  "C17Kw", "C17KwMid", "C17Init", "C17Dfl", "C17Kw2"}
+                  "C17Kw", "C17KwMid", "C17Init", "C17Dfl", "C17Kw2",
+                  \* (round 7)
+                  "C17Oi", "C17OiLeaf", "C17OiMid", "C17OiVar", "C17OiSub", "C17OiNh", "C17OiNhLeaf",
+                  "C17NoHashLeaf", "C17NhVar", "C17NhPair", "C17OiNhVar", "C17OiNhSub"}
 \* user dataclass nodes whose field order is not the order of the positional parameters of
 \* __init__ (keyword-only fields, fields __init__ does not take): c17_classes.py
 ReorderedUser == {"C17Kw", "C17KwMid", "C17Init", "C17Dfl", "C17Kw2"}
@@ -52,7 +55,55 @@ LegacyUser    == {"C17Old", "C17OldLeaf", "C17OldVar"}
 \* (pymbolic.geometric_algebra.primitives), the others are user classes of c17_classes.py
 \* (dataclass subclass, legacy subclass, subclass with a keyword-only field).  C17Fn is a
 \* plain subclass of FunctionSymbol (no field of its own, only another mapper method).
-VarLikeUser   == {"MultiVectorVariable", "C17Tagged", "C17OldVar", "C17Kw", "C17Kw2"}
+VarLikeUser   == {"MultiVectorVariable", "C17Tagged", "C17OldVar", "C17Kw", "C17Kw2",
+                  "C17OiVar", "C17NhVar", "C17OiNhVar"}
+
+(***************************************************************************)
+(* (round 7) The decorator's OPTIONS are part of the space of user node    *)
+(* types: how a class of DataclassUser is DECLARED (c17_classes.py).        *)
+(*   init   TRUE: the dataclass machinery writes __init__; FALSE            *)
+(*          (expr_dataclass(init=False)): the class writes its own          *)
+(*   hash   TRUE: the decorator installs its cached hash; FALSE             *)
+(*          (expr_dataclass(hash=False)): it installs none                  *)
+(*   own    the class body defines __hash__ (uncached)                      *)
+(*   base   what the class derives from: "Expression" itself, a "plain"     *)
+(*          (non-dataclass) intermediate class, a "stock" dataclass node of *)
+(*          the library, a "user" dataclass node (parent)                   *)
+(* Python's rule for where hash() of an instance comes from: the class's    *)
+(* own __hash__, else the decorator's, else the nearest base's.  A class    *)
+(* that ends at Expression.__hash__ (no own, no generated, no dataclass     *)
+(* node above it) can only be hashed where dataclasses are not frozen       *)
+(* (under -O): such a declaration is not a usable node type and is not in   *)
+(* the catalogue (CatalogueSane: HashProvided for every declared class).    *)
+(***************************************************************************)
+Decl(init, hash, own, base, parent) ==
+    [init |-> init, hash |-> hash, own |-> own, base |-> base, parent |-> parent]
+UserDecl(cls) ==
+    CASE cls \in {"C17Pair", "C17Unit", "C17Names", "C17KwMid", "C17Init", "C17Dfl"}
+                                    -> Decl(TRUE, TRUE, FALSE, "Expression", "")
+      [] cls \in {"C17Tagged", "C17Kw"} -> Decl(TRUE, TRUE, FALSE, "stock", "")
+      [] cls = "C17Kw2"             -> Decl(TRUE, TRUE, FALSE, "user", "C17Kw")
+      [] cls \in {"C17NoHash", "C17NoHashLeaf"} -> Decl(TRUE, FALSE, TRUE, "Expression", "")
+      [] cls \in {"C17Oi", "C17OiLeaf"} -> Decl(FALSE, TRUE, FALSE, "Expression", "")
+      [] cls = "C17OiMid"           -> Decl(FALSE, TRUE, FALSE, "plain", "")
+      [] cls = "C17OiVar"           -> Decl(FALSE, TRUE, FALSE, "stock", "")
+      [] cls = "C17OiSub"           -> Decl(FALSE, TRUE, FALSE, "user", "C17Oi")
+      [] cls \in {"C17OiNh", "C17OiNhLeaf"} -> Decl(FALSE, FALSE, TRUE, "Expression", "")
+      [] cls = "C17NhVar"           -> Decl(TRUE, FALSE, FALSE, "stock", "")
+      [] cls = "C17NhPair"          -> Decl(TRUE, FALSE, FALSE, "user", "C17Pair")
+      [] cls = "C17OiNhVar"         -> Decl(FALSE, FALSE, FALSE, "stock", "")
+      [] cls = "C17OiNhSub"         -> Decl(FALSE, FALSE, FALSE, "user", "C17Oi")
+\* how a declared class comes by its hash: the decorator's / its own / its base's
+HashSource(cls) == LET d == UserDecl(cls) IN
+                   IF d.own /\ ~d.hash THEN "own" ELSE IF d.hash THEN "gen" ELSE "inherit"
+\* is there a hash that works in every interpreter mode?  crossed = FALSE: the decorator as
+\* documented (it installs its hash iff hash=True); crossed = TRUE (C17_Gen's negative control):
+\* a decorator that reads the wrong one of its options (installs its hash iff init=True)
+RECURSIVE HashProvided(_, _)
+HashProvided(cls, crossed) ==
+    LET d == UserDecl(cls) IN
+    \/ d.own \/ (IF crossed THEN d.init ELSE d.hash) \/ d.base = "stock"
+    \/ (d.base = "user" /\ HashProvided(d.parent, crossed))
 
 \* children of every kind (the ones of Expr.tla plus the extensions)
 XKids(e) ==
